@@ -1557,8 +1557,9 @@ class Bits:
         """
         # If the bitstring is file based then we don't want to read it all in to memory first.
         chunk_size = 8 * 100 * 1024 * 1024  # 100 MiB
-        for chunk in self.cut(chunk_size):
-            f.write(chunk.tobytes())
+        # The chunks are taken in storage order whatever the bit numbering, so that the file is always tobytes().
+        for chunk_start in range(0, len(self), chunk_size):
+            f.write(self._absolute_slice(chunk_start, min(chunk_start + chunk_size, len(self))).tobytes())
 
     def startswith(self, prefix: BitsType, start: Optional[int] = None, end: Optional[int] = None) -> bool:
         """Return whether the current bitstring starts with prefix.
